@@ -112,6 +112,38 @@ theorem C13_reject_bad_first_byte (ext : Ext) (s : Bytes) (hs : s ≠ star ∧ s
     | cons b t => simp [h b t rfl]
   simp [this, hps]
 
+/-! ### The documented constants and alphabets (regenerated facts, pinned to the documentation) -/
+
+/-- Same members (decidable). -/
+def sameBytes (xs ys : List Nat) : Bool := xs.all ys.contains && ys.all xs.contains
+
+/-- **C13 (constants).** The length maxima, ports, separators and special schemes the code uses are
+the documented ones: 64-byte scheme, 253-byte host, 5-digit port up to 65535, default ports 80 / 443,
+`://`, `.`, `:`, `*.`, `*`; the request-side length cap is exactly the sum of the maxima
+(scheme + `://` + host + trailing dot + `:` + port). -/
+theorem C13_constants :
+    Facts.origins_maxSchemeLen = 64 ∧ Facts.origins_maxHostLen = 253 ∧ Facts.origins_maxPortLen = 5 ∧
+    Facts.origins_maxUint16 = 65535 ∧ Facts.origins_portHTTP = 80 ∧ Facts.origins_portHTTPS = 443 ∧
+    Facts.origins_schemeHTTP = Spec.b "http" ∧ Facts.origins_schemeHTTPS = Spec.b "https" ∧
+    Facts.origins_schemeHostSep = Spec.b "://" ∧ Facts.origins_labelSep = 46 ∧ Facts.origins_hostPortSep = 58 ∧
+    Facts.origins_peekKind_wildcardSeq = Spec.b "*." ∧ Facts.origins_portWildcard = Spec.b "*" ∧
+    Facts.origins_subdomainWildcard = Spec.b "*" ∧ Facts.origins_parsePort_base = 10 ∧
+    Facts.origins_Parse_maxOriginLen = 64 + 3 + 253 + 1 + 1 + 5 ∧
+    Facts.origins_fastParseHost_minIPv6HostLen = 4 ∧ file = Spec.b "file" ∧ null = Spec.b "null" := by decide
+
+/-- **C13 (alphabets).** First scheme byte: exactly a-z.  Later scheme bytes: every documented one
+(a-z, 0-9, `+`, `-`, `.`) and nothing else except the grey-zone `_`.  Label bytes: every documented
+one (a-z, 0-9, `-`) and nothing else except the grey-zone `_` — in particular no upper-case letter,
+no byte above 127, none of `@ / ? # : [ ]` and no whitespace.  Digits: 0-9; first port digit: 1-9. -/
+theorem C13_alphabets :
+    sameBytes Facts.origins_lowerAlpha (Spec.b "abcdefghijklmnopqrstuvwxyz") = true ∧
+    (Spec.b "abcdefghijklmnopqrstuvwxyz0123456789+-.").all Facts.origins_laterSchemeBytes.contains = true ∧
+    Facts.origins_laterSchemeBytes.all (Spec.b "abcdefghijklmnopqrstuvwxyz0123456789+-._").contains = true ∧
+    (Spec.b "abcdefghijklmnopqrstuvwxyz0123456789-").all Facts.origins_asciiLabelBytes.contains = true ∧
+    Facts.origins_asciiLabelBytes.all (Spec.b "abcdefghijklmnopqrstuvwxyz0123456789-_").contains = true ∧
+    sameBytes Facts.origins_digits (Spec.b "0123456789") = true ∧
+    sameBytes Facts.origins_nonzeroDigits (Spec.b "123456789") = true := by decide
+
 /-- The full statements that remain to be proved (covered by the `lex` suite only). -/
 def C13_accept_full : Prop :=
   ∀ (ext : Ext) (s : Bytes), (∃ o, Lex.parse s = some o ∧ o.host.assumeIP = false ∧ Pat.plainIdnaOK o.host.value = true
@@ -123,6 +155,8 @@ def ext0 : Ext := { idnaXn := fun _ => false, isETLD := fun _ => false, ip6 := f
 example : (parsePattern ext0 (Spec.b "https://example.com:8080")).toOption.map (·.port) = some 8080 := by decide
 example : (Lex.parse (Spec.b "https://example.com:8080")).map (·.port) = some 8080 := by decide
 
+#print axioms C13_constants
+#print axioms C13_alphabets
 #print axioms C13_self
 #print axioms C13_accepted_shape
 #print axioms C13_reject_null
